@@ -147,7 +147,13 @@ func (lv *LeafVariants) remainsToExist() bool {
 
 	// if all the intent entries are marked for deletion, an explicit delete is
 	// sent to the device, a running entry does not make the value remain.
+	// The schema default takes over, if there is one.
 	if lv.shouldDelete() {
+		for _, l := range lv.les {
+			if l.Owner() == DefaultsIntentName && !l.GetDeleteFlag() {
+				return true
+			}
+		}
 		return false
 	}
 
